@@ -8,4 +8,5 @@ let table : (string * ((Model.z list -> Model.z list) * (Model.z list -> Model.z
   ("C20", (Model.run_c20, Model.chk_c20));
   ("C12", (Model.run_c12, Model.chk_c12));
   ("C18", (Model.run_c18, Model.chk_c18));
+  ("POOL", (Model.run_pool, Model.chk_pool_tmp));
 ]
